@@ -88,6 +88,10 @@ contract(T + "._run_single_stage", "C19",
          ensures={"completed-only-if-processed": "implies(result.status == StageStatus.COMPLETED, calls_to('.processor') == 1 and not raised('.processor'))"})
 
 
+# pipeline construction: the stage objects run() consults are the ones the caller handed over
+contract(T + ".add_stage", "C19", params={"stage": "obj:CascadeStage"}, raises=[], modifies=["self._stages"],
+         ensures={"the-stage-is-appended": "len(self._stages) == len(old(self)._stages) + 1 and self._stages[len(self._stages) - 1] is stage and result is self"})
+
 # the agent-based front end builds its stages here: a gate given for an agent stage must BE the gate of the stage that run() consults
 # ("a pipeline stage that has a checkpoint ..." presupposes that the checkpoint the caller supplied is installed)
 shape("AgentCascade", name="str", mode="enum:CascadeMode", max_amplification="real", halt_on_failure="bool", silent="bool", budget="any",
